@@ -31,6 +31,20 @@ def lastOr (d : Diagram) : List Diagram → Diagram
   | [] => d
   | s :: ss => lastOr s ss
 
+/-! ### The cache of `normal_form` (rewriting.py:146-151) over a list of yielded steps -/
+
+/-- Some step is `==` to a diagram of the cache or to an EARLIER STEP (any of them). -/
+def hasRepeat : List Diagram → List Diagram → Bool
+  | _, [] => false
+  | cache, s :: ss => cache.any (fun c => c.eqv s) || hasRepeat (s :: cache) ss
+
+/-- Index (counted from `k`) of the first step that is `==` to the cache or an earlier step:
+    where `normal_form` raises NotImplementedError. -/
+def firstRepeat : List Diagram → List Diagram → Nat → Option Nat
+  | _, [], _ => none
+  | cache, s :: ss, k =>
+    if cache.any (fun c => c.eqv s) then some k else firstRepeat (s :: cache) ss (k+1)
+
 /-! ### Wiring (used only to *state* connectivity; no theorem depends on it) -/
 
 /-- Scan the diagram labelling every wire by its producer (`none` = input boundary); returns for
